@@ -496,6 +496,21 @@ func runC20(r *core.Run) {
 				c.bad("POST /v1/restore", "outputs array", resp)
 			}
 		}
+		// the empty answers are arrays too (NUT-09 / NUT-07: "outputs": [], "signatures": [], "states": [...]), not null
+		for name, outs := range map[string][]client.Output{"nothing-signed": client.Outputs(rng, act.Id, []uint64{1, 2}), "mixed": append(client.Outputs(rng, act.Id, []uint64{4}), sOuts[0])} {
+			resp = c.do("POST", "/v1/restore", map[string]any{"outputs": outsJSON(outs)})
+			if c.expect200("POST /v1/restore ("+name+")", resp) {
+				want := 0
+				if name == "mixed" {
+					want = 1
+				}
+				o, ok1 := resp.obj["outputs"].([]any)
+				sg, ok2 := resp.obj["signatures"].([]any)
+				if !ok1 || !ok2 || len(o) != want || len(sg) != want {
+					c.bad("POST /v1/restore ("+name+")", fmt.Sprintf("outputs and signatures must be arrays of length %d", want), resp)
+				}
+			}
+		}
 		// melt: quote, pending, paid
 		meltQuote := func(sat uint64) (string, string) {
 			inv := world.NewExternalInvoice(sat * 1000)
